@@ -177,11 +177,11 @@ def main():
         'C13': 'explicit accumulation columns resolved through the unpacking of a_ctrl[line]; kernel rules of C03, operand-wiring rule of C01 and memory-map rules of C08 included; the kernel _wave_eval evaluated (Engine M with array stand-ins, checks/kernel_eval.py) on ~300 single-gate situations (1450 in the thorough tier): BOUNDED evaluation next to the path rules, and the deciding rule when a restructured merge loop is outside the shapes the path engine parses (clauses activity, overflow: marker clear => waveform equals the unlimited-capacity one); both capture paths (c_to_s + wave_capture_cpu / wave_capture_gpu) evaluated on 36 waveforms x 3 lanes x 5 capture times x sd in {0, 0.75} against what the waveform encodes (checks/capture_eval.py) (all rows s[3..10]); switching-activity epilogue evaluated with stale memory behind the waveform; abuf shape / element type from the evaluated WaveSim constructor',
         'C14': 'C14.records: SdfTransformer applied bottom-up to the parse tree of a small delay file; C14.landing: iopaths / interconnects evaluated on stand-in circuits (which delays[line, polarity] cell each entry lands in), array shape and axis move by recording stubs; per-call transformer construction; C11 rules included',
         'C15': 'interpret() evaluated on every documented alias, foreign values and nested iterables; render table evaluated',
-        'C16': 'memory-map rules of C08 included; nothing in the per-op iteration writes the output location after the callback was called (the callback sees the final value and what it writes stays); an iterable of the dispatch loop other than ops[:, :6] (helper method, generator over the level table) is evaluated: every op visited once, in op-list order (C16.columns, also C01/C02.columns)',
+        'C16': 'memory-map rules of C08 included; nothing in the per-op iteration writes the output location after the callback was called (the callback sees the final value and what it writes stays); an iterable of the dispatch loop other than ops[:, :6] (helper method, generator over the level table) is evaluated: every op visited once, in op-list order (C16.columns, also C01/C02.columns); sibling agreement of the 2-valued callback loop with _prop_cpu per opcode, 16 rows each (C16.untouched)',
         'C17': 'C17.traverse: the five traversal generators evaluated on every digraph on <= 3 nodes (cut at state elements) and forward-edged graphs on 4 nodes against the stated contract; C17.locs: _locs / io_locs / s_locs evaluated on families of names; s_nodes evaluated; visit-counter width; C09.history included',
         'C18': 'C18.maps: StilFile._maps evaluated on all chains of <= 5 entries; C18.extract: StilTransformer and StilFile.__init__ applied to the lark parse tree of a fixture STIL text; per-call transformer construction; StilFile methods never store into self',
         'C19': 'TechLib constructor evaluated on the five library texts with bench.parse replaced by a stand-in; pin_index / pin_is_output evaluated for every cell and pin; C01.wiring, C10.function (fork elimination of implementation circuits) included',
-        'C20': 'C20.extract: DefTransformer applied to the lark parse tree of a fixture DEF text, every extracted field and the derived wire / via geometry compared with the text; DefWire/DefNet geometry properties evaluated on all short routing lists; per-call transformer construction',
+        'C20': 'C20.extract: DefTransformer applied to the lark parse tree of a fixture DEF text, every extracted field and the derived wire / via geometry compared with the text; DefWire/DefNet geometry properties (with the helper methods of their classes) evaluated on all short routing lists incl. segments that consist of vias only - undecided (exit 2) when outside the evaluator subset; per-call transformer construction',
     }
     for c in checks:
         if c['property_id'] in EXTRA:
